@@ -156,6 +156,8 @@ pub fn run(cfg: &Cfg) -> Report {
             }
         }
     }
+    // random larger 2D symbols (7-14 chambers) built constructively, branching up to 12
+    symbols.extend(gen::random_larger_2d_symbols(seed, cfg.tier.pick(4_000, 60_000), cfg.tier.pick(14, 24), &[1, 1, 2, 2, 3, 3, 4, 5, 6, 12]));
     // plus labelled variants: all renumberings are applied below, but also feed *distinct non-isomorphic*
     // symbols of equal size into the partition comparison (clause 4)
     let partition_lib: Mutex<BTreeMap<MSym, BTreeSet<Vec<usize>>>> = Mutex::new(BTreeMap::new());
